@@ -14,6 +14,13 @@ BASELINE_OFF = ('cd /repo && env -u ELECTRUMX_VERIF /venv/bin/python -m pytest -
 _IDX_NOTE = ('Trusted: the fake plyvel stand-in (bound to real LevelDB by the conformance run), '
              'the reference indexer; only the default schedule is used here (schedules: C06/C07).')
 CHECKS = {
+    'C18': ('exploration',
+            'exhaustive enumeration of fault sequences on the real Daemon with a scripted HTTP session, virtual clock',
+            'Every fault sequence over a 7-letter alphabet (plus faults after k streamed chunks) up '
+            'to the length bound x 1..3 URLs x three back-off ladders x 13 call variants, plus long '
+            'runs crossing two fail-overs; observed URL trajectory compared with a reference automaton '
+            'of the documented policy, results with a fake bitcoind, the block file byte for byte.',
+            'aiohttp replaced by a scripted session; bitcoind answers batches in order.', '3/C18'),
     'C13': ('exploration',
             'exhaustive enumeration of tx shapes x truncation points and of block shapes x every chunk size',
             'Transaction shapes over every varint-width boundary (counts, script lengths) and extreme '
